@@ -16,7 +16,10 @@ EXPLANATION = (
     "name, objects, initial facts and fluents, goal literals and numeric goals), an object line on name and type, a fluent line on "
     "name, arguments, repeat counts and value, a fact line on name, object arguments and polarity. C09.keywords: the section keywords "
     "the problem writer emits are heads that parse_problem dispatches on. C09.balance: balanced writer templates. C09.dupkeys: the "
-    "fluent reader keys its signature by the argument tokens (multiplicity is kept, positions are not)."
+    "fluent reader keys its signature by the argument tokens (multiplicity is kept, positions are not). C09.fluentargs: shape of the text of "
+    "PDDLFunction.state_representation (sa/strshape): one run over repeating_variables that prints the key as many times as its count "
+    "([key] * count, range(count), repeat(key, count)), never skipped or left early, and the keys of signature enter the text exactly under "
+    "'not a key of repeating_variables' (guard valuation over the filter, whatever form it has)."
 )
 UNDECIDED = "round-trip equality for all problems; empty sections; :metric"
 
@@ -274,6 +277,228 @@ def rule_everypath(repo: Repo, rid: str = "C09.everypath") -> RuleResult:
     return r
 
 
+# how PDDLFunction stores a ground fluent (f a b a): `signature` = the DISTINCT arguments (a dict cannot repeat a key) and
+# `repeating_variables` = {argument: how often it occurs} for the arguments that occur more than once.  The fluent line must therefore
+# list every key of repeating_variables as many times as its count, and the keys of signature that are NOT repeated exactly once.
+FLUENT_PRINTER = "PDDLFunction.state_representation"
+REPEATS_FIELD = "repeating_variables"       # reason: field of PDDLFunction that holds the multiplicities (FIELD_TABLE names it, too)
+ARGUMENTS_FIELD = "signature"               # reason: field of PDDLFunction whose keys are the distinct arguments
+_COLLECTION_VIEWS = ("call:keys", "arg0:set", "arg0:list", "arg0:frozenset", "arg0:tuple", "arg0:sorted", "arg0:dict", "call:copy")
+
+
+def _strip_views(x: tuple) -> tuple:
+    return tuple(s_ for s_ in x if s_ not in _COLLECTION_VIEWS)
+
+
+def _is_field(paths, field: str) -> bool:
+    return bool(paths) and all(_strip_views(x) == ("self", f"attr:{field}") for x in paths)
+
+
+def _is_key_of(paths, field: str) -> bool:
+    """an element of the walk over the dict field: its key (walking the dict / .keys() / the first component of an .items() pair)"""
+    good = {("self", f"attr:{field}", "elem"), ("self", f"attr:{field}", "call:items", "elem", "unpack:0"), ("self", f"attr:{field}", "call:items", "elem", "item:0")}
+    return bool(paths) and all(_strip_views(x) in good for x in paths)
+
+
+def _is_count_of(paths, field: str) -> bool:
+    """the value that belongs to the key: second component of the .items() pair or a lookup in the dict"""
+    good = {("self", f"attr:{field}", "call:items", "elem", "unpack:1"), ("self", f"attr:{field}", "call:items", "elem", "item:1"), ("self", f"attr:{field}", "item")}
+    return bool(paths) and all(_strip_views(x) in good for x in paths)
+
+
+def _list_valued(e: ast.AST) -> bool:
+    """syntactically a list (so not a token that `join` accepts)"""
+    if isinstance(e, (ast.List, ast.ListComp)):
+        return True
+    if isinstance(e, ast.BinOp) and isinstance(e.op, (ast.Mult, ast.Add)):
+        return _list_valued(e.left) or _list_valued(e.right)
+    return False
+
+
+def _ill_typed_list_operation(fn: ast.AST):
+    """a list display as operand of an arithmetic operator other than + and *: raises TypeError whenever it is evaluated"""
+    for n in ast.walk(fn):
+        if isinstance(n, ast.BinOp) and not isinstance(n.op, (ast.Add, ast.Mult)) and (isinstance(n.left, (ast.List, ast.ListComp)) or isinstance(n.right, (ast.List, ast.ListComp))):
+            return n
+    return None
+
+
+def rule_fluentargs(repo: Repo, rid: str = "C09.fluentargs") -> RuleResult:
+    """the argument list of a fluent line, read off the SHAPE of the text (whatever mix of loops, comprehensions, helpers, `+=`, `extend`,
+    chain, templates builds it): (1) one run per repeated argument that prints that argument as many times as its count; (2) one run over
+    the distinct arguments that prints exactly those that are not repeated."""
+    from .. import strshape as S
+    from ..core import AnalysisError
+    r = RuleResult(rid, "a fluent line lists every repeated argument as often as it repeats and every other argument of the signature once",
+                   "the same fluent values, including fluents with repeated arguments")
+    f = U.fn(repo, FLUENT_PRINTER)
+    p = L.prov(repo, f)
+    ev = U.Evaluator(repo, f)
+    rets = [x for x in L.func_returns(f) if x.value is not None]
+    if not rets:
+        raise AnalysisError(f"{FLUENT_PRINTER}: no returned text found")
+
+    def tr(e):
+        try:
+            return p.trace(e)
+        except (KeyError, RecursionError):
+            return set()
+
+    def parts(sh):
+        return [y for x in sh.parts for y in parts(x)] if isinstance(sh, S.Cat) else [sh]
+
+    def expands(rep) -> bool:
+        """the run prints the KEY of the current pair COUNT times"""
+        lp = rep.loop
+        body = [x for x in parts(rep.body) if not isinstance(x, S.Lit)]
+        if len(body) != 1 or not isinstance(body[0], S.Hole):
+            return False
+        hole = body[0].node
+        it = lp.iter
+        if lp.target is None:                                   # [key] * count written in place
+            return _is_key_of(tr(hole), REPEATS_FIELD) and _is_count_of(tr(it), REPEATS_FIELD)
+        if not (isinstance(hole, ast.Name) and isinstance(lp.target, ast.Name) and hole.id == lp.target.id):
+            return False
+        if isinstance(it, ast.BinOp) and isinstance(it.op, ast.Mult):     # for x in [key] * count
+            lst, cnt = (it.left, it.right) if isinstance(it.left, ast.List) else (it.right, it.left)
+            return isinstance(lst, ast.List) and len(lst.elts) == 1 and _is_key_of(tr(lst.elts[0]), REPEATS_FIELD) and _is_count_of(tr(cnt), REPEATS_FIELD)
+        if isinstance(it, ast.Call) and isinstance(it.func, (ast.Name, ast.Attribute)) and not it.keywords:
+            nm = it.func.id if isinstance(it.func, ast.Name) else it.func.attr
+            if nm == "repeat" and len(it.args) == 2:            # for x in repeat(key, count)
+                return _is_key_of(tr(it.args[0]), REPEATS_FIELD) and _is_count_of(tr(it.args[1]), REPEATS_FIELD)
+        return False
+
+    def counted(rep) -> bool:
+        """for _ in range(count): <key>"""
+        it = rep.loop.iter
+        return isinstance(it, ast.Call) and isinstance(it.func, ast.Name) and it.func.id == "range" and len(it.args) == 1 and _is_count_of(tr(it.args[0]), REPEATS_FIELD)
+
+    def repeated_atom(e):
+        """`<key of signature> in / not in <repeating_variables>`"""
+        if isinstance(e, ast.Compare) and len(e.ops) == 1 and isinstance(e.ops[0], (ast.In, ast.NotIn)):
+            if _is_key_of(tr(e.left), ARGUMENTS_FIELD) and _is_field(tr(e.comparators[0]), REPEATS_FIELD):
+                return "repeated" if isinstance(e.ops[0], ast.In) else "!repeated"
+        return None
+
+    G = L.Guards(f, repeated_atom)
+    g = G.g
+    pm = L.parents_of(f)
+
+    def inside_atom(n) -> bool:
+        cur = n
+        while cur in pm and not isinstance(cur, ast.stmt):
+            cur = pm[cur]
+            if repeated_atom(cur):
+                return True
+        return False
+
+    def tests_mention_repeats() -> bool:
+        tests = [x.test for x in ast.walk(f.node) if isinstance(x, (ast.If, ast.IfExp, ast.While))]
+        tests += [c for x in ast.walk(f.node) if isinstance(x, ast.comprehension) for c in x.ifs]
+        return any(any(s_ == f"attr:{REPEATS_FIELD}" for t in tr(n) for s_ in t) for t_ in tests for n in ast.walk(t_)
+                   if isinstance(n, (ast.Name, ast.Attribute)) and not inside_atom(n))
+
+    def expansion_exprs():
+        """fallback without the text shape: expressions that denote `key, count times`"""
+        for n in ast.walk(f.node):
+            if isinstance(n, ast.BinOp) and isinstance(n.op, ast.Mult):
+                lst, cnt = (n.left, n.right) if isinstance(n.left, ast.List) else (n.right, n.left)
+                if isinstance(lst, ast.List) and len(lst.elts) == 1 and _is_key_of(tr(lst.elts[0]), REPEATS_FIELD) and _is_count_of(tr(cnt), REPEATS_FIELD):
+                    yield n
+            elif isinstance(n, ast.Call) and isinstance(n.func, (ast.Name, ast.Attribute)) and len(n.args) == 2 and not n.keywords and \
+                    (n.func.id if isinstance(n.func, ast.Name) else n.func.attr) == "repeat" and _is_key_of(tr(n.args[0]), REPEATS_FIELD) and _is_count_of(tr(n.args[1]), REPEATS_FIELD):
+                yield n
+            elif isinstance(n, (ast.For, ast.comprehension)) and isinstance(n.iter, ast.Call) and isinstance(n.iter.func, ast.Name) and n.iter.func.id == "range" \
+                    and len(n.iter.args) == 1 and _is_count_of(tr(n.iter.args[0]), REPEATS_FIELD):
+                scope = n.body if isinstance(n, ast.For) else [pm.get(n)]
+                for st in scope:
+                    for x in ast.walk(st) if st is not None else ():
+                        if isinstance(x, ast.Name) and isinstance(x.ctx, ast.Load) and _is_key_of(tr(x), REPEATS_FIELD):
+                            yield x
+
+    for rt in rets:
+        try:
+            sh = ev.string(rt.value)
+        except Exception as ex:
+            raise AnalysisError(f"{FLUENT_PRINTER}: the returned text is not interpreted ({ex})")
+        r.site(L.site(f, rt, "repeated arguments"))
+        r.site(L.site(f, rt, "arguments that occur once"))
+        shaped = not S.unknowns(sh)
+        if not shaped:
+            bad = _ill_typed_list_operation(f.node)
+            if bad is not None:
+                r.fail(Finding(rid, f, "repeated-arguments", f"{unparse(bad, 50)} is not a list repetition (a list display only supports + and *): printing a fluent "
+                               f"raises TypeError", node=bad))
+                continue
+        runs = S.reps(sh) if shaped else []
+        # (1) repeated arguments
+        outer = [x for x in runs if _is_field(tr(x.loop.iter), REPEATS_FIELD) or
+                 (tr(x.loop.iter) and all(_strip_views(t) == ("self", f"attr:{REPEATS_FIELD}", "call:items") for t in tr(x.loop.iter)))]
+        good, skipped = [], []
+        for x in outer:
+            for y in S.reps(x.body):
+                if not (expands(y) or (counted(y) and _is_key_of({t for h in S.holes(y.body) for t in tr(h)}, REPEATS_FIELD))):
+                    continue
+                if x.loop.conds:
+                    continue
+                if isinstance(x.loop.node, ast.For) and g.node_of(x.loop.node) is not None:
+                    # a statement loop: every turn reaches the expansion, no turn ends the walk
+                    tgt = g.node_of(y.loop.node) if isinstance(y.loop.node, ast.For) else next((g.node_containing(h) for h in S.holes(y.body)), None)
+                    if tgt is None:
+                        continue
+                    if L.leaves_loop_early(G, {}, x.loop.node) or not L.must_pass_in_loop(G, {}, x.loop.node, {tgt}):
+                        skipped.append(x)
+                        continue
+                good.append(x)
+        if not shaped:
+            if any(L.flows_to_return(f, e) for e in expansion_exprs()):
+                r.ok({"repeated_arguments": "an expression 'argument, count times' over repeating_variables reaches the text (text shape not interpreted)"})
+            else:
+                r.fail(Finding(rid, f, "repeated-arguments", f"no part of the fluent text lists the keys of {REPEATS_FIELD} as often as their counts say: an argument "
+                               f"that occurs more than once (f a a) is missing from the exported line", node=rt))
+        elif good:
+            r.ok({"repeated_arguments": "for (argument, count) of repeating_variables: the argument, count times"})
+        elif skipped:
+            r.fail(Finding(rid, f, "repeated-arguments", f"the walk over {REPEATS_FIELD} can skip a repeated argument or stop before the last one", node=rt))
+        elif not outer:
+            r.fail(Finding(rid, f, "repeated-arguments", f"the fluent text has no part that walks over {REPEATS_FIELD}: an argument that occurs more than once "
+                           f"(f a a) is missing from the exported line, the line is read back with the wrong number of arguments", node=rt))
+        else:
+            inner = [h for x in outer for h in S.holes(x.body)]
+            if any(_list_valued(h) for h in inner):
+                r.fail(Finding(rid, f, "repeated-arguments", f"the walk over {REPEATS_FIELD} contributes a LIST ({unparse(next(h for h in inner if _list_valued(h)), 40)}) "
+                               f"as one element of the argument sequence instead of its members: joining the arguments raises TypeError", node=rt))
+            elif inner and all(_is_key_of(tr(h), REPEATS_FIELD) for h in inner) and not any(S.reps(x.body) for x in outer):
+                r.fail(Finding(rid, f, "repeated-arguments", "a repeated argument is printed once, not as many times as it repeats", node=rt))
+            else:
+                raise AnalysisError(f"{FLUENT_PRINTER}: how the walk over {REPEATS_FIELD} contributes to the text is not interpreted")
+        # (2) the other arguments: where a key of the signature enters the text, decided under 'this key is / is not a repeated one'
+        if shaped:
+            cands = [h for x in runs if _is_field(tr(x.loop.iter), ARGUMENTS_FIELD) for h in S.holes(x.body) if _is_key_of(tr(h), ARGUMENTS_FIELD)]
+        else:
+            cands = [n for n in ast.walk(f.node) if isinstance(n, ast.Name) and isinstance(n.ctx, ast.Load) and _is_key_of(tr(n), ARGUMENTS_FIELD)
+                     and not inside_atom(n) and L.flows_to_return(f, n)]
+        if not cands:
+            if not shaped:
+                raise AnalysisError(f"{FLUENT_PRINTER}: the returned text is not interpreted ({S.unknowns(sh)[:2]})")
+            r.fail(Finding(rid, f, "single-arguments", f"the fluent text has no part that lists the keys of {ARGUMENTS_FIELD}", node=rt))
+            continue
+        if any(g.node_containing(h) is None for h in cands):
+            raise AnalysisError(f"{FLUENT_PRINTER}: where the keys of {ARGUMENTS_FIELD} enter the text is not interpreted")
+        if "repeated" not in G.atoms_seen and tests_mention_repeats():
+            raise AnalysisError(f"{FLUENT_PRINTER}: the test that tells repeated arguments from the others is not interpreted")
+        verdicts = [(G.reaches_expr({"repeated": False}, h), G.reaches_expr({"repeated": True}, h)) for h in cands]
+        shown, again = any(v[0] for v in verdicts), any(v[1] for v in verdicts)
+        if shown and not again:
+            r.ok({"single_arguments": "keys of signature that are not keys of repeating_variables"})
+        else:
+            what = "an argument that occurs once is left out" if not shown else "a repeated argument is printed once more than it repeats"
+            r.fail(Finding(rid, f, "single-arguments", f"a key of {ARGUMENTS_FIELD} enters the text when 'it is a repeated argument' is "
+                           f"{[k for k, v in ((False, shown), (True, again)) if v]}: {what}", node=rt))
+    r.require_sites(2)
+    return r
+
+
 def rules(repo: Repo, tier: str) -> List[RuleResult]:
     return [c08.rule_fields(repo, "C09.fields", FIELD_TABLE), rule_keywords(repo), rule_domain_name(repo), rule_goalform(repo),
             c08.rule_balance(repo, "C09.balance", ["ProblemExporter.extract_problem", "ProblemExporter.write_objects", "ProblemExporter.write_initial_state",
@@ -282,4 +507,4 @@ def rules(repo: Repo, tier: str) -> List[RuleResult]:
             c08.rule_typedparams(repo, "C09.typedobjects", ["ProblemExporter.write_objects"]) if False else c08.rule_balance(repo, "C09.balance2", ["PDDLObject.__str__"]),
             c01.rule_dupkeys(repo, "C09.dupkeys", ["ProblemParser.parse_grounded_numeric_fluent"]),
             # parsing one problem must not leak into the text of another: no write into shared module-level state
-            c07.rule_global(repo, "C09.global"), rule_elements(repo), rule_objecttext(repo), rule_everypath(repo)]
+            c07.rule_global(repo, "C09.global"), rule_elements(repo), rule_objecttext(repo), rule_everypath(repo), rule_fluentargs(repo)]
